@@ -106,6 +106,21 @@ Definition is_pred_of (n : N) (a : node) : bool := existsb (N.eqb n) (n_preds a)
 Definition sinks (g : graph) : list node :=
   filter (fun a => negb (existsb (is_pred_of (n_id a)) (g_nodes g))) (g_nodes g).
 
+(* well-formedness of a program: in every graph the node ids are pairwise different and every
+   node is listed after its predecessors (layered / acyclic graphs) *)
+Fixpoint preds_earlier (seen : list N) (ns : list node) : bool :=
+  match ns with
+  | [] => true
+  | a :: ns' => forallb (fun p => existsb (N.eqb p) seen) (n_preds a) && preds_earlier (n_id a :: seen) ns'
+  end.
+Fixpoint ids_unique (ns : list node) : bool :=
+  match ns with
+  | [] => true
+  | a :: ns' => negb (existsb (fun b => N.eqb (n_id a) (n_id b)) ns') && ids_unique ns'
+  end.
+Definition topo_ok (f : forest) : bool :=
+  forallb (fun g => preds_earlier [] (g_nodes g) && ids_unique (g_nodes g)) f.
+
 (* ------------------------------------------------------------------ values and state *)
 
 Definition X := list (N * Z).      (* map[string]any{"k<N>": int64}, sorted by key *)
